@@ -4,6 +4,7 @@ import (
 	"bytes"
 	"encoding/base64"
 	"fmt"
+	"strings"
 	"sync"
 
 	"github.com/IBM/fluent-forward-go/fluent/protocol"
@@ -130,5 +131,112 @@ func init() {
 			per = 40000
 		}
 		o.emit("C12", "CID", "stress", itoa(int64(g)), itoa(int64(per)))
+	}
+}
+
+// CIDS <ctor>:<action> … => per message "<optsBefore>|<id>|<optsAfter>" … final=<id,id,…>
+//   ctor: NM NewMessage | NX NewMessageExt | NF NewForwardMessage | NP NewPackedForwardMessage | NB …FromBytes |
+//         NC NewCompressedPackedForwardMessage | ND NewCompressed…FromBytes
+//   action: c = Chunk() | p<hex> = the caller puts this id into the options first, then Chunk() | n = nothing
+// all messages of one line live in the same process at the same time
+func cidsCtor(k string, i int) (protocol.ChunkEncoder, func() **protocol.MessageOptions, error) {
+	rec := map[string]interface{}{"k": int64(i)}
+	el := protocol.EntryList{{Timestamp: protocol.EventTimeNow(), Record: rec}, {Timestamp: protocol.EventTimeNow(), Record: rec}}
+	switch k {
+	case "NM":
+		m := protocol.NewMessage("t", rec)
+		return m, func() **protocol.MessageOptions { return &m.Options }, nil
+	case "NX":
+		m := protocol.NewMessageExt("t", rec)
+		return m, func() **protocol.MessageOptions { return &m.Options }, nil
+	case "NF":
+		m := protocol.NewForwardMessage("t", el)
+		return m, func() **protocol.MessageOptions { return &m.Options }, nil
+	case "NP":
+		m, err := protocol.NewPackedForwardMessage("t", el)
+		if err != nil {
+			return nil, nil, err
+		}
+		return m, func() **protocol.MessageOptions { return &m.Options }, nil
+	case "NB":
+		m := protocol.NewPackedForwardMessageFromBytes("t", []byte{0x92, 0xd7, 0, 0, 0, 0, 1, 0, 0, 0, 2, 0x80})
+		return m, func() **protocol.MessageOptions { return &m.Options }, nil
+	case "NC":
+		m, err := protocol.NewCompressedPackedForwardMessage("t", el)
+		if err != nil {
+			return nil, nil, err
+		}
+		return m, func() **protocol.MessageOptions { return &m.Options }, nil
+	default:
+		m, err := protocol.NewCompressedPackedForwardMessageFromBytes("t", []byte{0x92, 0xd7, 0, 0, 0, 0, 1, 0, 0, 0, 2, 0x80})
+		if err != nil {
+			return nil, nil, err
+		}
+		return m, func() **protocol.MessageOptions { return &m.Options }, nil
+	}
+}
+
+func init() {
+	ops["CIDS"] = func(a []string) string {
+		type ent struct {
+			m    protocol.ChunkEncoder
+			opts func() **protocol.MessageOptions
+		}
+		var ms []ent
+		var out []string
+		for i, spec := range a {
+			k, act := spec[:2], spec[3:]
+			m, opts, err := cidsCtor(k, i)
+			if err != nil {
+				return "err"
+			}
+			ms = append(ms, ent{m, opts})
+			before := renderOpts(*opts())
+			id := ""
+			switch act[0] {
+			case 'p':
+				if *opts() == nil {
+					*opts() = &protocol.MessageOptions{}
+				}
+				(*opts()).Chunk = string(unhx(act[1:]))
+				id, _ = m.Chunk()
+			case 'c':
+				id, _ = m.Chunk()
+			}
+			out = append(out, fmt.Sprintf("%s|%s|%s", before, hx([]byte(id)), renderOpts(*opts())))
+		}
+		fin := make([]string, len(ms))
+		for i, e := range ms {
+			if o := *e.opts(); o != nil {
+				fin[i] = hx([]byte(o.Chunk))
+			} else {
+				fin[i] = "-"
+			}
+		}
+		return strings.Join(out, " ") + " final=" + strings.Join(fin, ",")
+	}
+	old := suites["cid"]
+	suites["cid"] = func(o *Out, r *Rng, n int, tier string) {
+		old(o, r, n*3/4, tier)
+		ctors := []string{"NM", "NX", "NF", "NP", "NB", "NC", "ND"}
+		for i := 0; i < n/4; i++ {
+			k := 2 + r.Intn(5)
+			args := make([]string, k)
+			for j := range args {
+				c := ctors[r.Intn(len(ctors))]
+				if j > 0 && r.Chance(40) {
+					c = args[j-1][:2] // the same constructor twice in a row
+				}
+				act := "c"
+				switch r.Intn(6) {
+				case 0:
+					act = "p" + hx(genChunkID(r))
+				case 1:
+					act = "n"
+				}
+				args[j] = c + ":" + act
+			}
+			o.emit("C12", "CIDS", args...)
+		}
 	}
 }
